@@ -526,6 +526,10 @@ func cmdCheck(id, tier string) int {
 			}
 		}
 		for k, v := range r.Bounds {
+			if k == "programs" {
+				mergePrograms(m.Bounds, v)
+				continue
+			}
 			m.Bounds[k] = v
 		}
 		for _, s := range r.Samples {
@@ -720,4 +724,46 @@ func cmdReplay(path string) int {
 	}
 	fmt.Printf("replay of %s: no violation on the current tree\n", abs)
 	return 0
+}
+
+// mergePrograms sums the per-program explorer statistics of the shards.
+func mergePrograms(dst map[string]any, v any) {
+	src, ok := v.(map[string]any)
+	if !ok {
+		return
+	}
+	all, _ := dst["programs"].(map[string]any)
+	if all == nil {
+		all = map[string]any{}
+		dst["programs"] = all
+	}
+	num := func(x any) float64 { f, _ := x.(float64); return f }
+	for name, pv := range src {
+		p, ok := pv.(map[string]any)
+		if !ok {
+			continue
+		}
+		old, ok := all[name].(map[string]any)
+		if !ok {
+			all[name] = p
+			continue
+		}
+		old["executions"] = num(old["executions"]) + num(p["executions"])
+		if num(p["completed_preemption_bound"]) < num(old["completed_preemption_bound"]) {
+			old["completed_preemption_bound"] = p["completed_preemption_bound"]
+		}
+		if num(p["max_choice_points"]) > num(old["max_choice_points"]) {
+			old["max_choice_points"] = p["max_choice_points"]
+		}
+		a, _ := old["executions_per_level"].([]any)
+		b, _ := p["executions_per_level"].([]any)
+		for i := range b {
+			if i < len(a) {
+				a[i] = num(a[i]) + num(b[i])
+			} else {
+				a = append(a, b[i])
+			}
+		}
+		old["executions_per_level"] = a
+	}
 }
